@@ -208,7 +208,9 @@ func (self ValueList) Fields() (map[string]*Value, *Interrupt) {
 			if length == 0 {
 				return NewNoneOption(), nil
 			}
-			return NewValueOption((*self.Values)[length-1]), nil
+			// Return a copy: the option must not alias the list's element cell
+			last := *(*self.Values)[length-1]
+			return NewValueOption(&last), nil
 		}),
 		"to_json":        marshalHelper(self),
 		"to_json_indent": marshalIndentHelper(self),
